@@ -62,4 +62,11 @@ BREAKS = [
              "        if self.create_readonly_node and metadata.get('no-write', False):",
          new="        metadata = update_metadata(children[name][1].copy(), self.metadata, now)\n"
              "        if False:"),
+    # twins of seeded C16-7: the read-only view of a keyed write node keeps a stronger secret in its state
+    dict(name="c16-readonly-view-keeps-privkey", prop="C16", file="mutable/filenode.py",
+         old="        ro.init_from_cap(self._uri.get_readonly())\n        return ro",
+         new="        ro.init_from_cap(self._uri.get_readonly())\n        ro._privkey = self._privkey\n        return ro"),
+    dict(name="c16-readonly-view-remembers-parent-node", prop="C16", file="mutable/filenode.py",
+         old="        ro.init_from_cap(self._uri.get_readonly())\n        return ro",
+         new="        ro.init_from_cap(self._uri.get_readonly())\n        ro._downloader_hints = {'origin': self._uri}\n        return ro"),
 ]
